@@ -207,7 +207,9 @@ type NCTee struct {
 }
 
 type NCSet struct {
-	WantDoc string
+	// NoChange: the proto rendering of the same tree holds neither updates nor deletes
+	NoChange bool
+	WantDoc  string
 	Err     error
 	Warn    []string
 }
@@ -221,9 +223,12 @@ func (t *NCTee) Set(ctx context.Context, source target.TargetSource) (*sdcpb.Set
 	if x, err := source.ToXML(true, t.Opts.IncludeNS, t.Opts.OperationWithNamespace, t.Opts.UseOperationRemove); err == nil && x != nil {
 		want, _ = x.WriteToString()
 	}
+	pu, e1 := source.ToProtoUpdates(ctx, true)
+	pd, e2 := source.ToProtoDeletes(ctx)
+	noChange := e1 == nil && e2 == nil && len(pu) == 0 && len(pd) == 0
 	rsp, err := t.NC.Set(ctx, source)
 	t.mu.Lock()
-	t.Sets = append(t.Sets, NCSet{WantDoc: want, Err: err, Warn: rsp.GetWarnings()})
+	t.Sets = append(t.Sets, NCSet{NoChange: noChange, WantDoc: want, Err: err, Warn: rsp.GetWarnings()})
 	t.mu.Unlock()
 	if err != nil {
 		return nil, err
